@@ -145,6 +145,8 @@ package backend
 //@   requires back != nil && conf != nil && conf.Name != nil && conf.Addr != nil && conf.Port != nil
 //@   frame Sprintf pure
 //@   modifies back.Name, back.Addr, back.Port, back.AddrInfo, back.SubCluster
+//@   assumes[names_the_address_key] back.AddrInfo == addrKey(*conf.Addr, *conf.Port)
+//@   note fmt.Sprintf("%s:%d", addr, port) is named addrKey(addr, port), the same function BackendConf.AddrInfo computes
 
 //@ func (*BfeBackend).SetRestart
 //@   props C09
